@@ -69,8 +69,16 @@ class _Handler(object):
         return self.px[asset]
 
 
+# how the model's assets are spelt on the real side: plain, or symbols that are prefixes of one another (buffers are
+# keyed by '<symbol>_<lookback>' strings)
+NAME_SCHEMES = [dict(A="A", B="B", C="C"), dict(A="EQ:GO", B="EQ:GOOG", C="EQ:GOOGL"), dict(A="X1", B="X10", C="X100"),
+                dict(A="EQ:AB", B="EQ:A", C="EQ:ABC")]
+
+
 def replay(states, entry, lookbacks, rng):
     """Step one TLC behaviour through real signal objects.  Returns (n_updates, mismatches)."""
+    nm = rng.choice(NAME_SCHEMES)
+    back = dict((v, k) for k, v in nm.items())
     from qstrader.asset.universe.dynamic import DynamicUniverse
     from qstrader.signals.momentum import MomentumSignal
     from qstrader.signals.sma import SMASignal
@@ -86,7 +94,7 @@ def replay(states, entry, lookbacks, rng):
         else:
             # first update at which the asset belongs: exactly that close (inclusive), or just after the previous one
             dates[a] = rng.choice([ts(bday(e) * 1440 + 1260), ts(bday(e - 1) * 1440 + 1261) if e > 1 else ts(DAY0 * 1440 + 1)])
-    uni = DynamicUniverse(dates)
+    uni = DynamicUniverse(dict((nm[a], d) for a, d in dates.items()))
     lbs = sorted(lookbacks)
     sigs = {"mom": MomentumSignal(start, uni, list(lbs)), "sma": SMASignal(start, uni, list(lbs)),
             "vol": VolatilitySignal(start, uni, list(lbs))}
@@ -98,18 +106,18 @@ def replay(states, entry, lookbacks, rng):
         if k > 0:
             stream = asdict(S["stream"])
             for a in entry:
-                dh.px[a] = float(stream[a][-1]) if a in stream else float("nan")
+                dh.px[nm[a]] = float(stream[a][-1]) if a in stream else float("nan")
             coll.update(ts(bday(S["tick"]) * 1440 + 1260))
             n += 1
         win, sig = asdict(S["win"]), asdict(S["sig"])
         tracked = set(S["tracked"])
         for kind, sobj in sigs.items():
-            if set(sobj.assets) != tracked or len(sobj.assets) != len(tracked):
+            if set(back.get(x, x) for x in sobj.assets) != tracked or len(sobj.assets) != len(tracked):
                 out.append((k, "tracked", "%s tracks %s, expected %s" % (kind, sobj.assets, sorted(tracked))))
             for a in tracked:
                 for nlb in lbs:
                     cap = nlb if kind == "sma" else nlb + 1
-                    key = "%s_%s" % (a, cap)
+                    key = "%s_%s" % (nm[a], cap)
                     exp_w = [float(x) for x in fget(asdict(win[a])[kind], nlb)] if a in win else []
                     got_w = [float(x) for x in sobj.buffers.prices.get(key, [])]
                     if got_w != exp_w:
@@ -119,7 +127,7 @@ def replay(states, entry, lookbacks, rng):
                         continue           # nothing supplied yet: the moving average is undefined
                     r = fget(asdict(sig[a])[kind], nlb)
                     try:
-                        got = float(sobj(a, nlb))
+                        got = float(sobj(nm[a], nlb))
                     except Exception as e:
                         out.append((k, "value", "%s(%s, %d) raised %s" % (kind, a, nlb, type(e).__name__)))
                         continue
